@@ -553,7 +553,7 @@ class Verifier(Exec):
         """Generate all obligations of one function under contract."""
         self.cur = con
         self.compare_error_paths = 0
-        fdef = self.sources[con.name]
+        fdef = self.sources[con.ghost.get("of", con.name)]
         self.loop_index = {}
         k = 0
         for x in ast.walk(fdef):
@@ -590,6 +590,12 @@ class Verifier(Exec):
             ctx0 = SpecCtx(pre, pre)
             for nm, txt in con.requires.items():
                 st.assume(self.spec(txt, ctx0, state=st), tag="req:" + nm)
+            # derived ghost fields of the receiver hold their defining value on entry (they were
+            # refreshed at the exit of whatever produced this state): unfolds e.g. $wf[self]
+            for fld, txt in (con.ghost.get("derive") or {}).items():
+                v = self.sp(self.spec_expr(txt), st, dict(st.env), ctx0)
+                z = v.z if v.kind != "none" else z3.IntVal(0)
+                st.assume(self.hget(st, fld, st.env["self"].z) == z, tag="unfold:" + fld)
             pre.pc = list(st.pc)
             pre.heap = dict(st.heap)
             self.cur_stack = [con]
@@ -617,6 +623,13 @@ class Verifier(Exec):
 
     def finish_path(self, con, pre, s, o, case):
         ctx = SpecCtx(pre, s)
+        # derived ghost fields of the receiver (summaries that are DEFINED by its state, e.g. the
+        # first leaf of a node's subtree): refreshed from the final state at every exit
+        for fld, txt in (con.ghost.get("derive") or {}).items():
+            env0 = dict(pre.env)
+            v = self.sp(self.spec_expr(txt), s, env0, ctx)
+            z = v.z if v.kind != "none" else z3.IntVal(0)
+            self.hset(s, fld, pre.env["self"].z, z)
         if o is None:
             o = ("return", NONE)
         if o[0] == "return":
@@ -637,12 +650,18 @@ class Verifier(Exec):
                 if o[1].kind == "none" and any(
                         not isinstance(a, tuple) and parse_kind(a)[0] == "ref" for a in alts):
                     s.env["result"] = SV("ref", z3.IntVal(0))
+            acc = s.copy() if con.ghost.get("chain_post") else s
             for nm, txt in con.ensures.items():
                 if self.mode == "evict" and (" is old(" in txt or "fresh(" in txt):
                     continue      # object identity of the lists is not preserved across a reload
                 try:
                     goal = self.spec(txt, ctx, state=s)
                     detail = ""
+                    if con.ghost.get("chain_post"):
+                        # postcondition clauses are proved in order; an earlier one may be used for a later one
+                        self.oblige(acc, "%s:post:%s" % (con.name, nm), goal, detail)
+                        acc.assume(goal, tag="newpost:" + nm)
+                        continue
                 except Unsupported as e:
                     # the clause speaks about a value of another kind than the one
                     # returned on this path (e.g. a container was promised, an
